@@ -119,6 +119,22 @@ impl<'tcx> Interp<'tcx> {
                 }
                 TerminatorKind::Return => {
                     let fi = self.fi() as usize;
+                    // a boolean result that is an undecided comparison is returned as two
+                    // partitions, each refined by the comparison's outcome
+                    if bi.ret_bool {
+                        let undecided = matches!(&st.frames[fi].locals[0], Val::Int(i) if i.is_const().is_none());
+                        let ver = st.frames[fi].vers[0];
+                        let has_def = st.frames[fi].bdefs.iter().any(|e| e.0 == 0 && e.1 == ver);
+                        if undecided && has_def {
+                            for val in [true, false] {
+                                let mut s2 = st.clone();
+                                if self.assume_bool_local(&mut s2, 0, val, 0) {
+                                    acc.add(Tgt::Return(val as u8), s2);
+                                }
+                            }
+                            return acc;
+                        }
+                    }
                     let k = if bi.ret_bool {
                         match &st.frames[fi].locals[0] {
                             Val::Int(i) => match i.is_const() {
@@ -215,7 +231,16 @@ impl<'tcx> Interp<'tcx> {
                         continue;
                     }
                     // undecided: explore each edge up to the immediate post-dominator, then join
-                    let m = bi.cfg.ipdom[bb];
+                    let mut m = bi.cfg.ipdom[bb];
+                    // a bare `return` block is not a join point: outcomes are merged (or kept as
+                    // partitions for boolean results) at the Return target instead
+                    if let Some(mb) = m {
+                        let d = &bi.body.basic_blocks[cfg_bb(mb)];
+                        let only_storage = d.statements.iter().all(|s| matches!(s.kind, StatementKind::StorageDead(_) | StatementKind::StorageLive(_) | StatementKind::Nop));
+                        if only_storage && matches!(d.terminator.as_ref().map(|t| &t.kind), Some(TerminatorKind::Return)) && !stop.contains(&mb) {
+                            m = None;
+                        }
+                    }
                     let mut sub: Vec<usize> = stop.to_vec();
                     if let Some(m) = m {
                         if !sub.contains(&m) {
@@ -408,8 +433,9 @@ impl<'tcx> Interp<'tcx> {
         if let Some(inst) = inst {
             let is_local = inst.def_id().krate == rustc_span::def_id::LOCAL_CRATE;
             if is_local || self.tcx.is_closure_like(inst.def_id()) {
-                if let Some(r) = self.call_instance(st.clone(), inst, argv.clone()) {
-                    return r;
+                match self.call_instance(st, inst, argv.clone()) {
+                    Ok(r) => return r,
+                    Err(s) => st = s,
                 }
             }
         }
@@ -449,18 +475,57 @@ impl<'tcx> Interp<'tcx> {
 
     /// inline a callee: returns the post-states (callee frame popped) with the returned value,
     /// partitioned by the boolean result for bool-returning functions
-    pub fn call_instance(&mut self, mut st: State, inst: Instance<'tcx>, mut args: Vec<Val>) -> Option<Vec<(State, Val)>> {
+    pub fn call_instance(&mut self, mut st: State, inst: Instance<'tcx>, mut args: Vec<Val>) -> Result<Vec<(State, Val)>, State> {
         if self.stack.len() >= MAX_DEPTH {
             self.unsupported("max-call-depth");
-            return None;
+            return Err(st);
         }
-        let bi = self.body_of(inst)?;
+        let Some(bi) = self.body_of(inst) else { return Err(st) };
         *self.call_trace.entry(bi.name.clone()).or_insert(0) += 1;
         self.max_depth = self.max_depth.max(self.stack.len() + 1);
         // rust-call ABI: closures invoked through call_once/call_mut receive a tuple
         if let Some(sp) = bi.body.spread_arg {
             let _ = sp;
         }
+        // memoisation of pure functions on the abstract values behind their arguments
+        let mut pkey: Option<Vec<Val>> = None;
+        if bi.pure_args && self.region_depth == 0 {
+            let mut key = Vec::with_capacity(args.len());
+            let mut ok = true;
+            for a in &args {
+                match a {
+                    Val::Ref(p) => key.push(self.read_ptr(&st, p)),
+                    Val::Slice { base, start, len } => match (start.is_const(), len.is_const()) {
+                        (Some(s0), Some(n)) if n <= 8192 => {
+                            let mut arr = ArrV::uniform(Val::Bot, n as u64);
+                            for i in 0..n {
+                                arr.over.insert(i as u64, self.read_ptr(&st, &base.push(PElem::Index(s0 + i))));
+                            }
+                            arr.compress();
+                            key.push(Val::Arr(Rc::new(arr)));
+                        }
+                        _ => ok = false,
+                    },
+                    Val::Int(i) => key.push(Val::Int(self.atoms(&st).concretize(i).unwrap_or_else(|| i.clone()).plain())),
+                    other => key.push(other.clone()),
+                }
+            }
+            if ok {
+                if let Some(entries) = self.pmemo.get(&inst) {
+                    for (k, rets, viol) in entries {
+                        if *k == key {
+                            self.pmemo_hits += 1;
+                            let (rets, viol) = (rets.clone(), viol.clone());
+                            self.replay_violations(&viol);
+                            return Ok(rets.into_iter().map(|v| (st.clone(), v)).collect());
+                        }
+                    }
+                }
+                pkey = Some(key);
+            }
+        }
+        let pviol_before: std::collections::BTreeSet<String> =
+            if pkey.is_some() { self.sites.iter().filter(|(_, s)| s.violated && s.roots.contains(&self.cur_root)).map(|(k, _)| k.clone()).collect() } else { Default::default() };
         let entering_region = bi.scalar && self.region_depth == 0;
         let mut memo_key = None;
         let atoms_before = st.atoms.len();
@@ -478,10 +543,8 @@ impl<'tcx> Interp<'tcx> {
                 let k = (inst, key);
                 if let Some((vs, viol)) = self.memo.get(&k).cloned() {
                     self.memo_hits += 1;
-                    for s in viol {
-                        self.site_visit(&s, false, String::new());
-                    }
-                    return Some(vs.into_iter().map(|v| (st.clone(), v)).collect());
+                    self.replay_violations(&viol);
+                    return Ok(vs.into_iter().map(|v| (st.clone(), v)).collect());
                 }
                 memo_key = Some(k);
             }
@@ -501,6 +564,7 @@ impl<'tcx> Interp<'tcx> {
         }
         let viol_before: std::collections::BTreeSet<String> =
             if memo_key.is_some() { self.sites.iter().filter(|(_, s)| s.violated).map(|(k, _)| k.clone()).collect() } else { Default::default() };
+        let probe_args: Vec<String> = args.iter().map(|v| v.short()).collect();
         let mut fr = FrameSt::new(bi.body.local_decls.len());
         for (i, a) in args.into_iter().enumerate() {
             if i + 1 < fr.locals.len() && i < bi.body.arg_count {
@@ -509,6 +573,8 @@ impl<'tcx> Interp<'tcx> {
         }
         st.frames.push(fr);
         self.stack.push(bi.clone());
+        let probe_this = !self.probe_pats.is_empty() && self.probe_pats.iter().any(|p| bi.name.contains(p.as_str()));
+        let rw_before = self.reject_witness.len();
         let saved_bb = (self.cur_bb, self.cur_call_bb);
         let t0 = std::time::Instant::now();
         let outs = self.exec_from(0, 0, &[], st, true);
@@ -554,20 +620,44 @@ impl<'tcx> Interp<'tcx> {
             }
             out.push((s, v));
         }
+        if probe_this {
+            let mut d = std::collections::BTreeMap::new();
+            d.insert("args".to_string(), probe_args.join(" ; "));
+            let mut j: Option<Val> = None;
+            for (_, v) in out.iter() {
+                j = Some(match j {
+                    Some(x) => x.join(v),
+                    None => v.clone(),
+                });
+            }
+            d.insert("ret".to_string(), j.map(|v| super::jobs::val_summary(&v, 0).to_string()).unwrap_or_else(|| "null".into()));
+            let mut w: Option<Val> = None;
+            for x in self.reject_witness[rw_before..].iter() {
+                w = Some(match w {
+                    Some(y) => y.join(x),
+                    None => x.clone(),
+                });
+            }
+            d.insert("reject_witness".to_string(), w.map(|v| super::jobs::val_summary(&v, 0).to_string()).unwrap_or_else(|| "null".into()));
+            d.insert("path".to_string(), self.call_path());
+            self.probes.push(Probe { what: "ret".into(), inst: bi.name.clone(), ctx: String::new(), data: d });
+        }
+        if let Some(k) = pkey {
+            if !out.is_empty() && !self.over_budget {
+                let viol = self.violations_since(&pviol_before, &bi.short);
+                let e = self.pmemo.entry(inst).or_default();
+                if e.len() < 64 {
+                    e.push((k, out.iter().map(|o| o.1.clone()).collect(), viol));
+                }
+            }
+        }
         if let Some(k) = memo_key {
             if !out.is_empty() && !self.over_budget {
-                let newv: Vec<String> = self.sites.iter().filter(|(key, s)| s.violated && s.roots.contains(&self.cur_root) && !viol_before.contains(*key)).map(|(k, _)| k.clone()).collect();
-                // sites that were already violated before are replayed too if they belong to this callee
-                let mut all = newv;
-                for (key, s) in self.sites.iter() {
-                    if s.violated && viol_before.contains(key) && key.starts_with(&bi.name) && !all.contains(key) {
-                        all.push(key.clone());
-                    }
-                }
+                let all = self.violations_since(&viol_before, &bi.short);
                 self.memo.insert(k, (out.iter().map(|o| o.1.clone()).collect(), all));
             }
         }
-        Some(out)
+        Ok(out)
     }
 }
 
